@@ -2,42 +2,6 @@
 Require Import Base Decimal Tree GenTree GenVisitors GenNaming Visitor Naming TreeInd.
 From Coq Require Import Lia.
 
-(* ---------------------------------------------------------------- generic tree facts *)
-
-Lemma item_children_ind (P : item -> Prop) :
-  (forall t, Forall P (children t) -> P t) -> forall t, P t.
-Proof.
-  intros H. induction t using item_ind'; apply H; simpl; repeat constructor; assumption.
-Qed.
-
-Lemma children_rebuild t cs :
-  length cs = length (children t) -> children (rebuild t cs) = cs.
-Proof.
-  unfold rebuild. destruct t; simpl; intros Hl;
-    repeat (destruct cs as [|? cs]; simpl in Hl; try discriminate; try reflexivity).
-Qed.
-
-Lemma meta_rebuild t cs : meta_of (rebuild t cs) = meta_of t.
-Proof.
-  unfold rebuild. destruct t; simpl;
-    repeat (destruct cs as [|? cs]; simpl; try reflexivity).
-Qed.
-
-Lemma cls_rebuild t cs : cls_of (rebuild t cs) = cls_of t.
-Proof.
-  unfold rebuild. destruct t; simpl;
-    repeat (destruct cs as [|? cs]; simpl; try reflexivity).
-Qed.
-
-Lemma meta_set_meta t m : meta_of (set_meta t m) = m.
-Proof. destruct t; reflexivity. Qed.
-
-Lemma children_set_meta t m : children (set_meta t m) = children t.
-Proof. destruct t; reflexivity. Qed.
-
-Lemma cls_set_meta t m : cls_of (set_meta t m) = cls_of t.
-Proof. destruct t; reflexivity. Qed.
-
 (* ---------------------------------------------------------------- pos_letter *)
 
 Lemma plf_some : forall l i c a, exists p, pos_letter_from i l c (Some a) = Some p /\ (p = a \/ i <= p).
